@@ -328,8 +328,9 @@ let the_env () : env = { stdlib = Lazy.force stdlib_table; fmt_f64 = fmt_model }
 let source_of (src : string) : source =
   if String.length src > 5 && String.sub src 0 5 = "seed:" then begin
     let seed = Int64.of_string ("0u" ^ String.sub src 5 (String.length src - 5)) in
-    let f = Glue.word_stream seed in
-    SrcWords ((fun (i : n) -> n_of_int (f (int_of_n i))), N0)
+    (* the model's own ChaCha8 (ChaCha.seeded_source: PCG32 key expansion + block function, extracted); the partial
+       application computes the first blocks once *)
+    seeded_source (n_of_int64 seed)
   end else SrcBytes (bytes_of_hex (String.sub src 6 (String.length src - 6)))
 
 let rust_name (o : opcode) = cp_name o
@@ -892,7 +893,9 @@ let () =
         (try s5_case c
          with e -> Printf.printf "DIFF %s step=0 s5-driver-exception %s\n" c.id (Printexc.to_string e))) (read_cases path)
   | [_; "words"; seed; n] ->
-      let f = Glue.word_stream (Int64.of_string ("0u" ^ seed)) in
+      (* the model's ChaCha8 word stream (extracted from ChaCha.v), in the format of `pf-harness words`; `wordsat` prints
+         single positions (far into the stream, beyond the cached blocks) *)
+      let f = chacha8_word (n_of_int64 (Int64.of_string ("0u" ^ seed))) in
       print_string ("WORDS " ^ seed);
-      for i = 0 to int_of_string n - 1 do Printf.printf " %08x" (f i) done; print_newline ()
+      for i = 0 to int_of_string n - 1 do Printf.printf " %08x" (int_of_n (f (n_of_int i))) done; print_newline ()
   | _ -> prerr_endline "usage: driver s1|s2 <tracefile> | words <seed> <n>"; exit 2
